@@ -4,7 +4,7 @@ From Coq Require Import List NArith ZArith.
 From AGH Require Import Base.Run Base.Bytes Base.Dom Base.PathClean Model.ClientID Model.CertNames.
 From AGH Require Import Model.GoLower Model.CertPrepare.
 From AGH Require Import Model.ClientIDCache Model.ClientIDReconf Model.TLSSettings.
-From AGH Require Import Model.TLSGlue Model.DoHTarget.
+From AGH Require Import Model.TLSGlue Model.DoHTarget Model.ClientIDKey.
 Import ListNotations.
 Local Open Scope N_scope.
 
@@ -128,7 +128,13 @@ Inductive case :=
   | CTarget (host : bytes) (strict : bool) (target : bytes) (tls : option bytes) (hh : bytes)
             (obs_path : option bytes) (obs : N) (obs_id : bytes)
   (* url.PathUnescape ([None]: an error) *)
-  | CUnescape (s : bytes) (obs : option bytes).
+  | CUnescape (s : bytes) (obs : option bytes)
+  (* round 8: requests served one after the other on ONE Server (no
+     reconfiguration) through the real HandleBefore + processInitial on
+     constructed contexts whose RequestID is given: per request the id, the
+     protocol, the connection's server name; observed 0 = processed with
+     [obs_id], 2 = refused by the hook *)
+  | CKeyHist (host : bytes) (strict : bool) (steps : list (N * N * option bytes * N * bytes)).
 
 Definition eqb_res (r : N * bytes) (c : N) (id : bytes) : bool :=
   (fst r =? c) && eqb_bytes (snd r) id.
@@ -278,6 +284,31 @@ Definition target_ok (host : bytes) (strict : bool) (t : bytes) (tls : option by
   | _, _ => false
   end.
 
+Fixpoint key_hist_ok (host : bytes) (strict : bool) (c : cache)
+    (steps : list (N * N * option bytes * N * bytes)) : bool :=
+  match steps with
+  | nil => true
+  | (rid, p, sni, obs, id) :: r =>
+      let (c', o) := serve_keyed server_cache_conf key64 host strict c rid (proto_of p) sni None in
+      match o with
+      | Some v => (obs =? 0) && eqb_bytes v id
+      | None => obs =? 2
+      end && key_hist_ok host strict c' r
+  end.
+
+(** 1-based index of the first request the model disagrees at (0: none), and
+    the ClientID the model processes it with. *)
+Fixpoint key_hist_first_bad (k : N) (host : bytes) (strict : bool) (c : cache)
+    (steps : list (N * N * option bytes * N * bytes)) : N * bytes :=
+  match steps with
+  | nil => (0, nil)
+  | (rid, p, sni, obs, id) :: r =>
+      let (c', o) := serve_keyed server_cache_conf key64 host strict c rid (proto_of p) sni None in
+      if match o with Some v => (obs =? 0) && eqb_bytes v id | None => obs =? 2 end
+      then key_hist_first_bad (k + 1) host strict c' r
+      else (k, match o with Some v => v | None => nil end)
+  end.
+
 Definition case_ok (c : case) : bool :=
   match c with
   | CCtx p host strict sni req obs id =>
@@ -305,6 +336,7 @@ Definition case_ok (c : case) : bool :=
   | CGlue s po a obs dns cn ip hellos => glue_ok s po a obs dns cn ip hellos
   | CTarget host strict t tls hh op obs id => target_ok host strict t tls hh op obs id
   | CUnescape s obs => eqb_option eqb_bytes (unescape s) obs
+  | CKeyHist host strict steps => key_hist_ok host strict nil steps
   end.
 
 Definition mismatches := Base.Run.mismatches case_ok.
@@ -366,4 +398,5 @@ Definition explain (c : case) : N * bytes :=
           end
       end
   | CUnescape s _ => match unescape s with Some u => (0, u) | None => (1, nil) end
+  | CKeyHist host strict steps => key_hist_first_bad 1 host strict nil steps
   end.
